@@ -490,6 +490,8 @@ func ruleReadFullSized(c *Ctx, p *core.Program, rule string) {
 			}
 		}
 	}
+	if n == 0 {
+		c.R.Ok(rule, "decoders", cfg, "", "no DecodeColumn hands ReadFull a receiver field directly").Trivial = true
+	}
 	c.R.Count("ReadFull into receiver fields["+cfg+"]", n)
-	c.R.Floor(rule, cfg, n, 1)
 }
